@@ -125,6 +125,34 @@ func init() {
 			"map iteration order inside App.ErrorHandler is a solver-enumerated decision (all orders); native replay repeats 40 times to hit an order-dependent witness",
 		},
 	}
+	var c04quick, c04all []int
+	for ti := 0; ti < 7; ti++ {
+		c04quick = append(c04quick, ti*4+(ti%4))
+		for k := 0; k < 4; k++ {
+			c04all = append(c04all, ti*4+k)
+		}
+	}
+	c04quick = append(c04quick, 6*4+1, 6*4+3, 3*4+2, 0*4+3, 2*4+0, 1*4+0, 100+6*4+3, 100+3*4+2, 100+0*4+1)
+	for ti := 0; ti < 7; ti++ {
+		for k := 1; k < 4; k++ {
+			c04all = append(c04all, 100+ti*4+k)
+		}
+	}
+	props["C04"] = PropSpec{
+		ID: "C04",
+		Runs: []HarnessRun{
+			{Rel: ".", Dir: "fiber", Entry: "VH_C04_mount", Cases: tierCases(c04quick, c04all), Reach: []string{"handlers-ran", "nothing-ran"}, MaxPaths: 100000},
+		},
+		Bounds: map[string]string{
+			"quick":    "7 composition trees (mount before/after sibling routes, nested mount, mount from a group, '/' and trailing-slash prefixes, parameterised prefix, sub-app '/*', upper-case paths), one routing config each (+4); request method from the tree's list, path fully symbolic at the listed lengths (<= 8)",
+			"thorough": "7 trees x 4 routing configs (CaseSensitive x StrictRouting, shared by parent and sub-apps)",
+		},
+		Assumptions: []string{
+			"sub-apps use either the parent's routing configuration or the default one (cases >= 100); the group world always uses the parent's",
+			"the group world registers each sub-app route under the path the sub-app records for it (\"\" means \"/\")",
+			"request path printable ASCII without '?', '#', '%', single leading '/'",
+		},
+	}
 	props["SMOKEFAIL"] = PropSpec{
 		ID: "SMOKEFAIL",
 		Runs: []HarnessRun{
